@@ -161,10 +161,11 @@ func (i Info) AppendHash(dst []byte, h hash.Hash) []byte {
 		}
 	}
 
-	dst = h.Sum(dst)
-	out := make([]byte, base64.StdEncoding.EncodedLen(len(dst)))
-	base64.StdEncoding.Encode(out, dst)
-	return out
+	sum := h.Sum(nil)
+	n := len(dst)
+	dst = append(dst, make([]byte, base64.StdEncoding.EncodedLen(len(sum)))...)
+	base64.StdEncoding.Encode(dst[n:], sum)
+	return dst
 }
 
 // GetInfo discovers a set of features and identities associated with a JID and
